@@ -85,7 +85,7 @@ def gen_op(rng, n, closed):
     if roll < 0.81:
         return {"name": "set_padding", "v": gen_padding(rng)}
     if roll < 0.87:
-        return {"name": "set_render_args", "v": rng.choice(["a0", "a1", "a2", "a3", "a2", "a3", "incompatible"])}
+        return {"name": "set_render_args", "v": rng.choice(["a0", "a1", "a2", "a3", "a2", "a3", "incompatible", "child"])}
     if roll < 0.94:
         return {"name": "set_render_size", "v": [rng.randrange(1, 5), rng.randrange(1, 4)]}
     if roll < 0.96:
